@@ -519,6 +519,10 @@ func ParseNodeString(node string) (*NodeID, string) {
 		return nil, ""
 	}
 	nodeID := BytesToNodeID(common.FromHex(trunks[0]))
+	// 128 characters which are not hex digits give less than 64 bytes
+	if nodeID == nil {
+		return nil, ""
+	}
 	_, err := nodeID.PubKey()
 	if err != nil {
 		return nil, ""
